@@ -428,7 +428,9 @@ def oracle(ctx, layout, lid, r, got, site="response_args"):
     eid = r["issuer"].strip() if r["issuer"] is not None else None
     role = "spsso" if kind in ("authn", "attribute_query") else (r["dt"] or "spsso")
     regs = registered(layout, eid, role, typ)
-    tagtxt = ":".join(str(t) for t in r.get("tag", ()))
+    # key granularity: call site, message class, issuer variant, URL variant (authn) / bindings argument (others)
+    tg = r.get("tag", ("?", "?", "?"))
+    tagtxt = "%s:%s" % (tg[0], tg[1] if kind == "authn" else tg[2])
     if not regs and not any(e["eid"] == eid for src in layout for e in src):
         ctx.oracle_fail("unknown-requester-answered:%s:%s" % (shape, tagtxt), "issuer %r is not in metadata, answered to %r" % (eid, got),
                         dict(layout=layout, request=r))
@@ -466,7 +468,7 @@ def oracle_refused(ctx, layout, r, got, pref=(POST, REDIRECT, ARTIFACT)):
     regs = registered(layout, SP1, "spsso", "assertion_consumer_service")
     blist = [r["pb"]] if r["pb"] else list(pref)
     if any(l == r["url"] and b in blist for b, l, _ in regs):
-        ctx.oracle_fail("registered-url-refused:%s" % ":".join(r["tag"]),
+        ctx.oracle_fail("registered-url-refused:%s:%s:pb-%s" % (r["tag"][0], r["tag"][1], r["tag"][3]),
                         "consumer URL %r is registered for %s under an admitted binding but the request was refused" % (r["url"], SP1),
                         dict(layout=layout, request=r))
 
@@ -551,8 +553,10 @@ def run(ctx):
                      "over 8 issuer variants x 6 bindings arguments; random larger layouts (1-4 endpoints, split descriptors, "
                      "entity in two sources) on top")
     fn = "run_ra_x" if EXACT else "run_ra"
-    model = ("fun c : (nat * request * option (list str) * str) => match c with (n, r, bs, dt) => "
-             "%s (idp_config default_preferred, nth n %s [], r, bs, dt) end" % (fn, "[" + ";\n ".join(lay_terms) + "]"))
+    # `let` so that the VM builds the layout table once, not once per case
+    model = ("let layouts : list mdstore := %s in fun c : (nat * request * option (list str) * str) => "
+             "match c with (n, r, bs, dt) => %s (idp_config default_preferred, nth n layouts [], r, bs, dt) end"
+             % ("[" + ";\n ".join(lay_terms) + "]", fn))
     ctx.correspond("response_args", "Model.PickBinding", model, "(nat * request * option (list str) * str)", cases,
                    shard=400)
     run_configs(ctx)
@@ -586,8 +590,8 @@ def run_configs(ctx):
                 book(ctx, ("config", name), r, got)
                 ctx.count("config:" + name)
     fn = "run_ra_x" if EXACT else "run_ra"
-    model = ("fun c : (list (svc * list str) * request * option (list str) * str) => match c with (p, r, bs, dt) => "
-             "%s (idp_config p, %s, r, bs, dt) end" % (fn, lt))
+    model = ("let md : mdstore := %s in fun c : (list (svc * list str) * request * option (list str) * str) => "
+             "match c with (p, r, bs, dt) => %s (idp_config p, md, r, bs, dt) end" % (lt, fn))
     ctx.correspond("response_args_preferred_binding", "Model.PickBinding", model,
                    "(list (svc * list str) * request * option (list str) * str)", cases, shard=400)
 
@@ -617,7 +621,7 @@ def run_pick_binding(ctx):
     }
     services = ["assertion_consumer_service", "single_logout_service", "manage_name_id_service", "attribute_consuming_service"]
     for (ename, ent, ccoq), service, pb, url, idx, bs, eid, dt in itertools.product(
-            [("idp", idp, "idp_config default_preferred"), ("sp", spc, "sp_config default_preferred")],
+            [("idp", idp, "false"), ("sp", spc, "true")],
             services, attr_vals["pb"], attr_vals["url"], attr_vals["index"],
             [None, [POST], [REDIRECT, POST]], ["", SP1], ["", "spsso", "idpsso"]):
         if service != "assertion_consumer_service" and (url[-1] in (EVIL, "") or idx[-1] in ("", None) or dt == "spsso" and ename == "idp"):
@@ -637,21 +641,25 @@ def run_pick_binding(ctx):
                  issuer=eid or SP1, url=url[-1] if url[0] == "has" else None,
                  index=None,   # the index oracle is about AuthnRequest objects; duck objects only feed the correspondence
                  pb=None, bindings=bs, dt=dt or ("idpsso" if ename == "sp" else ""), tag=(ename, service, pb[0], url[0], idx[0]))
-        cases.append(dict(id=len(cases), coq="(%s, %s, %s, %s, %s, %s, %s)" % (ccoq, lt, SVC[service], cbindings(bs), cstr(dt), rq, cstr(eid)),
+        cases.append(dict(id=len(cases), coq="(%s, %s, %s, %s, %s, %s)" % (ccoq, SVC[service], cbindings(bs), cstr(dt), rq, cstr(eid)),
                           impl=got, show=dict(entity=ename, service=service, pb=pb, url=url, index=idx, bindings=bs, entity_id=eid, descr_type=dt)))
         oracle(ctx, layout, ("pick_binding", ename), r, got, site="pick_binding")
         ctx.nontriv(("pb", ename, service, pb, url, idx, bs, eid, dt))
         ctx.count("pick_binding:%s:%s" % (ename, "answered" if isinstance(got, list) else "refused"))
     # request None, entity_id given (how the SP side uses it)
     for (ename, ent, ccoq), service, bs, eid, dt in itertools.product(
-            [("idp", idp, "idp_config default_preferred"), ("sp", spc, "sp_config default_preferred")],
+            [("idp", idp, "false"), ("sp", spc, "true")],
             services, [None, [POST], [ARTIFACT, REDIRECT], [""]], [SP1, SP2, NOBODY, ""], ["", "spsso", "idpsso"]):
         got = observe(call(ent.pick_binding, service, bs, dt, None, eid))
-        cases.append(dict(id=len(cases), coq="(%s, %s, %s, %s, %s, None, %s)" % (ccoq, lt, SVC[service], cbindings(bs), cstr(dt), cstr(eid)),
+        cases.append(dict(id=len(cases), coq="(%s, %s, %s, %s, None, %s)" % (ccoq, SVC[service], cbindings(bs), cstr(dt), cstr(eid)),
                           impl=got, show=dict(entity=ename, service=service, bindings=bs, entity_id=eid, descr_type=dt, request=None)))
         ctx.count("pick_binding:no-request:%s" % ("answered" if isinstance(got, list) else "refused"))
     fn = "run_pb_x" if EXACT else "run_pb"
-    ctx.correspond("pick_binding", "Model.PickBinding", fn, "pb_case", cases, shard=250)
+    model = ("let md : mdstore := %s in fun c : (bool * svc * option (list str) * str * option request * str) => "
+             "match c with (sp, s, bs, dt, r, eid) => %s ({| cf_is_sp := sp; cf_preferred := default_preferred |}, md, s, bs, dt, r, eid) end"
+             % (lt, fn))
+    ctx.correspond("pick_binding", "Model.PickBinding", model, "(bool * svc * option (list str) * str * option request * str)",
+                   cases, shard=400)
 
 
 def run_parsed(ctx):
